@@ -229,7 +229,9 @@ func init() {
 			secs = append(secs, seqSections("reuse-literal-", escapeAtoms, kt, func(c *core.Ctx, l string) { runIn(c, l, reuseContexts) })...)
 			// literals that span lines (LF, CRLF, CR) or hold a percent sign: through strings, through template
 			// files, and written by Response (the page itself and the custom error page of a failing page)
-			special := []string{"a\nb", "a\r\nb", "a\rb", "<\r\n>", "\r\n", "\n", "line1\r\nline2\r\n<b>&", "tab\tbed", "100%", "%d", "%s <b> %v", "50% & <more>", "%", "%%", "%!", "a%20b", "%[1]d&", "\r\n%\r\n"}
+			special := []string{"a\nb", "a\r\nb", "a\rb", "<\r\n>", "\r\n", "\n", "line1\r\nline2\r\n<b>&", "tab\tbed", "100%", "%d", "%s <b> %v", "50% & <more>", "%", "%%", "%!", "a%20b", "%[1]d&", "\r\n%\r\n",
+				// bytes that are not valid UTF-8: a lone lead byte, a lone continuation byte, a cut sequence, Latin-1 text
+				"\xff", "a\x80b", "\xe2\x82", "\xc3<", "caf\xe9 & <b>", "\xf0\x9f\x98", "\xc0\xaf"}
 			secs = append(secs, core.Section{Name: "multi-line-and-percent-literals", Exhaustive: true, N: len(special),
 				Run: func(c *core.Ctx, i int) {
 					runLit(c, special[i])
@@ -260,6 +262,8 @@ func runTreeLiteral(c *core.Ctx, l string) {
 			// arguments that read page variables named like other keys of the same call
 			"components/pair.tw": "P<{{ a }}|{{ b }}|{{ c }}>",
 			"pair.tw":            "{{ a = " + quoted + " }}{{ c = \"<c>\" }}@component(\"~pair\", {a: \"first\", b: a, c: a})",
+			// the inserts stand above the @use, and between two of them
+			"before.tw": "@insert(\"arg\", " + quoted + ")@insert(\"block\"){{ " + quoted + " }}@end@use(\"~main\")@insert(\"argraw\", " + quoted + ".raw())",
 		}
 		tpl, err := loadTree(c, "c10tree", files, ".tw")
 		if err != nil {
@@ -301,6 +305,16 @@ func runTreeLiteral(c *core.Ctx, l string) {
 				judgeSegment(c, "insert-argument", files["page.tw"], "[["+parts[0]+"]]", l, false)
 				judgeSegment(c, "insert-block", files["page.tw"], "[["+parts[1]+"]]", l, false)
 				judgeSegment(c, "insert-argument-raw", files["page.tw"], "[["+parts[2]+"]]", l, true)
+			}
+		}
+		if out, ok := render("before"); ok {
+			parts := strings.Split(strings.TrimSuffix(strings.TrimPrefix(out, "L<"), ">"), "|")
+			if len(parts) != 3 || !strings.HasPrefix(out, "L<") {
+				c.Violation("escape:tree:shape", fmt.Sprintf("unexpected page output %q", out), map[string]any{"literal": l, "files": files})
+			} else {
+				judgeSegment(c, "insert-argument-above-use", files["before.tw"], "[["+parts[0]+"]]", l, false)
+				judgeSegment(c, "insert-block-above-use", files["before.tw"], "[["+parts[1]+"]]", l, false)
+				judgeSegment(c, "insert-argument-raw-below-use", files["before.tw"], "[["+parts[2]+"]]", l, true)
 			}
 		}
 		if out, ok := render("pair"); ok {
